@@ -671,24 +671,34 @@ func (w *World) callsASCIILower(pf *ssa.Function) bool {
 
 func (w *World) asciiLowerFn(g *ssa.Function) bool {
 	cmpA, cmpZ, add := false, false, false
-	for _, b := range g.Blocks {
-		for _, in := range b.Instrs {
-			bo, ok := in.(*ssa.BinOp)
-			if !ok {
-				continue
-			}
-			for _, o := range []ssa.Value{bo.X, bo.Y} {
-				k, isK := o.(*ssa.Const)
-				if !isK || k.Value == nil || k.Value.Kind() != constant.Int {
+	// the range test may live in a predicate helper of the function
+	var fns []*ssa.Function
+	fns = append(fns, g)
+	for _, c := range callsIn(g) {
+		if h := callee(c); h != nil && w.inPkg(h) && h != g && h.Object() != nil && !h.Object().Exported() && len(h.Blocks) > 0 && len(h.Blocks) < 12 {
+			fns = append(fns, h)
+		}
+	}
+	for _, fn := range fns {
+		for _, b := range fn.Blocks {
+			for _, in := range b.Instrs {
+				bo, ok := in.(*ssa.BinOp)
+				if !ok {
 					continue
 				}
-				switch {
-				case ci(k) == 'A' && (bo.Op == token.LEQ || bo.Op == token.GEQ || bo.Op == token.LSS || bo.Op == token.GTR):
-					cmpA = true
-				case ci(k) == 'Z' && (bo.Op == token.LEQ || bo.Op == token.GEQ || bo.Op == token.LSS || bo.Op == token.GTR):
-					cmpZ = true
-				case ci(k) == 32 && (bo.Op == token.ADD || bo.Op == token.OR):
-					add = true
+				for _, o := range []ssa.Value{bo.X, bo.Y} {
+					k, isK := o.(*ssa.Const)
+					if !isK || k.Value == nil || k.Value.Kind() != constant.Int {
+						continue
+					}
+					switch {
+					case ci(k) == 'A' && (bo.Op == token.LEQ || bo.Op == token.GEQ || bo.Op == token.LSS || bo.Op == token.GTR):
+						cmpA = true
+					case ci(k) == 'Z' && (bo.Op == token.LEQ || bo.Op == token.GEQ || bo.Op == token.LSS || bo.Op == token.GTR):
+						cmpZ = true
+					case ci(k) == 32 && (bo.Op == token.ADD || bo.Op == token.OR):
+						add = true
+					}
 				}
 			}
 		}
